@@ -221,6 +221,19 @@ def judge_factory(cfg):
         if probs:
             return probs
         # a cut that leaves a piece shorter than (10x) the segment precision cannot be carried out
+        # units a shift can have produced: every reference unit moved by every (start, end) pair of consecutive
+        # shift answers of the judged call - a superset that does not depend on the order units are visited in
+        shift_max = None
+        shifted_possible = None
+        if "shift" in flags and "false_pos" not in flags and "split" not in flags:
+            ts = [e["answer"] for e in log if e["fn"] == "uniform" and e["a"] == -1 and e["b"] == 1]
+            all_units = [u for _, us in byann for u in us]
+            avg_len = sum(u[1] - u[0] for u in all_units) / len(all_units)
+            shift_max = m * 2 * avg_len
+            shifted_possible = set()
+            for (s0, e0, lab) in R:
+                for t1, t2 in zip(ts, ts[1:]):
+                    shifted_possible.add((s0 + t1 * shift_max, e0 + t2 * shift_max, lab))
         boundary_cut = any(e["fn"] == "uniform" and not (e["a"] == -1 and e["b"] == 1) and
                            (e["b"] - e["answer"] < 10 * PRECISION or
                             e["answer"] - (e["a"] - 0.01 * e["b"]) / 0.99 < 10 * PRECISION) for e in log)
@@ -244,6 +257,13 @@ def judge_factory(cfg):
                 probs.append((f"false positives removed units of {a}: {sorted(R - us)} missing", None))
             if "false_pos" not in flags and "split" not in flags and len(us) > len(R):
                 probs.append((f"{sorted(flags)} added units to {a}: {len(us)} > {len(R)}", None))
+            if shifted_possible is not None and "cat_shuffle" not in flags and m > 0:
+                stray = [u for u in us if not any(abs(u[0] - p[0]) <= 1e-9 * max(1, abs(p[0])) and
+                                                  abs(u[1] - p[1]) <= 1e-9 * max(1, abs(p[1])) and u[2] == p[2]
+                                                  for p in shifted_possible)]
+                if stray:
+                    probs.append((f"{sorted(flags)}: {a} holds {stray[:2]} which is not a reference unit moved by any of the "
+                                  f"shift answers (only shifting and removing were requested)", None))
             if flags == {"shift"} and len(us) != len(R):
                 probs.append((f"shifting changed the number of units of {a}: {len(us)} != {len(R)}", None))
             if flags == {"shift"} and labs != sorted(u[2] for u in R):
